@@ -28,6 +28,12 @@ OS_SHIMS(c8, char, T8)
 OS_SHIMS(wc, wchar_t, TW)
 OS_SHIMS(c16, char16_t, T16)
 OS_SHIMS(c32, char32_t, T32)
+// the entry points themselves (glue: writer construction + apply_format + flush), one argument
+VP_FN(void, vp_printf_1, (FILE *f, const char *fmt, const char *a)) { ST::printf(f, fmt, a); } VP_END(void)
+VP_FN(void, vp_writef_1_c8, (std::basic_ostream<char, T8> *os, const char *fmt, const char *a)) { ST::writef(*os, fmt, a); } VP_END(void)
+VP_FN(void, vp_writef_1_c16, (std::basic_ostream<char16_t, T16> *os, const char *fmt, const char *a)) { ST::writef(*os, fmt, a); } VP_END(void)
+VP_FN(void, vp_format_1, (string *out, const char *fmt, const char *a)) { new (out) string(ST::format(fmt, a)); } VP_END(void)
+VP_FN(void, vp_format_latin_1_1, (string *out, const char *fmt, const char *a)) { new (out) string(ST::format_latin_1(fmt, a)); } VP_END(void)
 VP_FN(void, vp_strsink, (string *out, const char *d, size_t n, int ch, size_t count, bool utf8)) {
     _ST_PRIVATE::string_format_writer w(""); w.append(d, n); w.append_char((char)ch, count); new (out) string(w.to_string(utf8, ST::assume_valid)); } VP_END(void)
 VP_FN(void, vp_str_dtor, (string *s)) { s->~string(); } VP_END(void)
@@ -56,6 +62,13 @@ VP_FN(void, vp_nat_extract_c8, (const char *t, size_t n, string *out)) { nat_ext
 VP_FN(void, vp_nat_extract_wc, (const wchar_t *t, size_t n, string *out)) { nat_extract<wchar_t, TW>(t, n, out); } VP_END(void)
 VP_FN(void, vp_nat_extract_c16, (const char16_t *t, size_t n, string *out)) { nat_extract_nofacet<char16_t, T16>(t, n, out); } VP_END(void)
 VP_FN(void, vp_nat_extract_c32, (const char32_t *t, size_t n, string *out)) { nat_extract_nofacet<char32_t, T32>(t, n, out); } VP_END(void)
+VP_FN(size_t, vp_nat_entry_stdio, (const char *fmt, const char *a, char *out, size_t cap)) {
+    char *mem = nullptr; size_t msz = 0; FILE *f = open_memstream(&mem, &msz); ST::printf(f, fmt, a); fclose(f);
+    for (size_t i = 0; i < msz && i < cap; ++i) out[i] = mem[i]; free(mem); return msz; } VP_END(size_t)
+VP_FN(size_t, vp_nat_entry_c8, (const char *fmt, const char *a, char *out, size_t cap)) {
+    std::ostringstream os; ST::writef(os, fmt, a); std::string s = os.str(); for (size_t i = 0; i < s.size() && i < cap; ++i) out[i] = s[i]; return s.size(); } VP_END(size_t)
+VP_FN(size_t, vp_nat_entry_c16, (const char *fmt, const char *a, char16_t *out, size_t cap)) {
+    std::basic_ostringstream<char16_t, T16> os; ST::writef(os, fmt, a); std::u16string s = os.str(); for (size_t i = 0; i < s.size() && i < cap; ++i) out[i] = s[i]; return s.size(); } VP_END(size_t)
 VP_FN(size_t, vp_nat_sink_stdio, (const char *d, size_t n, int ch, size_t count, char *out, size_t cap)) {
     char *mem = nullptr; size_t msz = 0; FILE *f = open_memstream(&mem, &msz);
     { _ST_PRIVATE::stdio_format_writer w("", f); w.append(d, n); w.append_char((char)ch, count); }
